@@ -82,3 +82,59 @@ PROPS["C02"] = P(
     bounds="token level: 1..3 (quick) / 1..4 (thorough) subtags, each " + T9,
     outside="identifiers with more than 4 subtags; subtags longer than 9 bytes; the push/sort/into_boxed_slice models of std (DESIGN 2.3)",
 )
+
+# value-level harnesses: slices of <= 2 variants (bound 4 = elements + 2), fixed 8-byte texts
+VAL_UW = {r"h::|c\d\d::": 6, r"SlicePartialEq<unic_langid_impl::subtags::Variant>|SlicePartialOrd<unic_langid_impl::subtags::Variant>|SliceOrd<unic_langid_impl::subtags::Variant>|<\[unic_langid_impl::subtags::Variant\]": 4,
+          r"variants_eq|variants_cmp": 6}
+PROPS["C11"] = P(
+    jobs=[
+        J("c11_language_matches", unwind=6, desc="Language::matches on two symbolic valid languages (incl. und) x 4 flag pairs"),
+        J("c11_langid_formula_v1", unwind=6, uw=VAL_UW, desc="LanguageIdentifier::matches == formula: both sides any language/script?/region?/<=1 variant, flags symbolic", weight=2),
+        J("c11_langid_laws_v1", unwind=6, uw=VAL_UW, desc="equality without flags, monotone in each flag, symmetric with swapped flags, reflexive (<=1 variant)", weight=3, mem_gb=12),
+        J("c11_langid_formula_v2", tier="t", unwind=6, uw=VAL_UW, desc="formula with <=2 variants per side", weight=3, mem_gb=12),
+    ],
+    bounds="both operands: any valid language (or und), optional script, optional region, 0..1 (quick) / 0..2 (thorough) variants; all four flag combinations",
+    outside="identifiers with more than 2 variants",
+)
+
+VEC_STUBS = ["<[unic_langid_impl::subtags::Variant]>::sort_unstable", "std::vec::Vec::into_boxed_slice", "<[unic_langid_impl::subtags::Variant]>::to_vec"]
+VEC_UW = {r"stubs::|sort_unstable|to_vec|dedup": 5, r"h::|c\d\d::": 6, r"insert_sorted_unique": 5}
+PROPS["C17"] = P(
+    jobs=[
+        J("c17_language_raw", unwind=6, desc="Language <-> Option<u64>: round trip, text intact, injective; all valid languages incl. und"),
+        J("c17_script_raw", unwind=6, desc="Script <-> u32"),
+        J("c17_region_raw", unwind=6, desc="Region <-> u32"),
+        J("c17_variant_raw", unwind=6, desc="Variant <-> u64"),
+        J("c17_langid_parts_roundtrip", unwind=6, uw=VEC_UW, stubs=VEC_STUBS, desc="from_parts(into_parts(x)) == x, x any langid with 0..2 variants", weight=2),
+        J("c17_from_parts_v0", unwind=6, uw=VEC_UW, stubs=VEC_STUBS, desc="from_parts with no variants == reference value"),
+        J("c17_from_parts_v2", unwind=6, uw=VEC_UW, stubs=VEC_STUBS, desc="from_parts with 2 variants in any order / equal == reference canonical value", weight=2),
+        J("c17_from_parts_v3", tier="t", unwind=6, uw=VEC_UW, stubs=VEC_STUBS, desc="3 variants, any order, duplicates allowed", weight=3),
+    ],
+    bounds="every valid subtag of each type (all T9 inputs the checked constructor accepts); language identifiers with 0..2 variants (round trip) and from_parts with 0, 2 (quick) or 3 (thorough) variants in arbitrary order with duplicates",
+    outside="Locale::into_parts/from_parts with an extension string (see C05); more than 3 variants; std models of sort_unstable/to_vec/into_boxed_slice",
+)
+
+FMT_UW = {r"core::fmt|fmt::Write|String|str::|Display": 8, r"memcpy|memmove": 24}
+PROPS["C12"] = P(
+    jobs=[
+        J("c12_langid_eq_ord_v1", unwind=6, uw=VAL_UW, desc="==, cmp, partial_cmp vs field-by-field reference, antisymmetry; <=1 variant per side", weight=2),
+        J("c12_langid_eq_ord_v2", tier="t", unwind=6, uw=VAL_UW, desc="as above, <=2 variants per side", weight=3, mem_gb=12),
+        J("c12_langid_hash", unwind=6, uw=dict(VAL_UW, **{r"Fnv|hash": 24}), desc="equal values hash equally (FNV-1a hasher), <=2 variants", weight=2),
+        J("c12_langid_ord_transitive", unwind=6, uw=VAL_UW, desc="cmp transitive on symbolic triples, <=1 variant", weight=3, mem_gb=12),
+        J("c12_langid_eq_iff_string_eq", unwind=6, uw=dict(VAL_UW, **FMT_UW), desc="x == y iff to_string equal, real Display/core::fmt, <=1 variant", weight=3, mem_gb=12),
+        J("c12_langid_eq_str", unwind=6, uw=dict(VAL_UW, **FMT_UW, **{r"c12::": 18, r"write_langid|write_txt": 10}), desc="li == &str iff str is the canonical text; str = any ASCII string <= 16 bytes", weight=3, mem_gb=12),
+    ],
+    bounds="pairs/triples of language identifiers: any valid language (or und), optional script, optional region, 0..1 (quick) / 0..2 (thorough) variants; &str operands: any ASCII string of <= 16 bytes",
+    outside="Locale/ExtensionsMap ordering (see level_note), identifiers with more than 2 variants, strings longer than 16 bytes",
+)
+C13_UW = dict(tok_uw(3))
+PROPS["C13"] = P(
+    jobs=[
+        J("c13_superset_1", unwind=6, uw=tok_uw(1), stubs=PARSER_STUBS, desc="1 x T9 through both token-level entries"),
+        J("c13_superset_2", unwind=6, uw=tok_uw(2), stubs=PARSER_STUBS, desc="2 x T9", weight=2),
+        J("c13_superset_3", tier="t", unwind=6, uw=tok_uw(3), stubs=PARSER_STUBS, desc="3 x T9", weight=3, mem_gb=12),
+        J("c13_conversions", unwind=6, uw=VAL_UW, desc="From/Into/AsRef between LanguageIdentifier and Locale, any langid with <=2 variants"),
+    ],
+    bounds="token level: 1..2 (quick) / 3 (thorough) subtags, each " + T9 + "; conversions: any langid with <= 2 variants",
+    outside="inputs with more than 3 subtags; subtags longer than 9 bytes",
+)
